@@ -25,7 +25,11 @@ type Var struct {
 	N    int  `json:"n"`
 	D    int  `json:"d,omitempty"`
 	Bare bool `json:"bare,omitempty"`
+	// ND: v<N> written as a bare symbol, i.e. this flavor gives no default
+	ND bool `json:"nd,omitempty"`
 }
+
+func (v Var) noDefault() bool { return v.Bare || v.ND }
 
 func (v Var) name() string {
 	if v.Bare {
@@ -56,6 +60,19 @@ type Flavor struct {
 	Ini    []string `json:"ini,omitempty"`
 	IniAll bool     `json:"iniall,omitempty"`
 	Keys   []Key    `json:"keys,omitempty"`
+	// Incl: :included-flavors (generated only on a non-abstract flavor, naming a
+	// flavor without components that is nobody's component and is included once)
+	Incl []int `json:"incl,omitempty"`
+	// Abstract: :abstract-flavor; ReqVars/ReqFlavors: :required-instance-variables
+	// and :required-flavors (only meaningful on an abstract flavor)
+	Abstract   bool     `json:"abstract,omitempty"`
+	ReqVars    []string `json:"reqvars,omitempty"`
+	ReqFlavors []int    `json:"reqflavors,omitempty"`
+}
+
+// deps lists the flavors that have to exist before f's defflavor.
+func (f *Flavor) deps() []int {
+	return append(append([]int{}, f.Comps...), f.Incl...)
 }
 
 // Method is one defmethod/defwhopper form: Kind is primary, before, after or
@@ -64,9 +81,13 @@ type Method struct {
 	F    int    `json:"f"`
 	Kind string `json:"kind"`
 	Msg  string `json:"msg"`
+	// Stop: a whopper that returns without continue-whopper
+	Stop bool `json:"stop,omitempty"`
 }
 
 // Step is one element of the history. Op: "flavor" (define flavor F),
+// "flavor-err" (the defflavor of F has to signal an error: a requirement of an
+// abstract component is not met; F stays undefined),
 // "method" (define method M; a repeated M is a redefinition), "inst" (make
 // an instance of F and keep it), "send" (send Msg to the kept instance of F).
 type Step struct {
@@ -78,7 +99,9 @@ type Step struct {
 
 // Case is a flavor DAG, a method assignment and a definition history.
 type Case struct {
-	Tmpl    string   `json:"tmpl,omitempty"`
+	Tmpl string `json:"tmpl,omitempty"`
+	// Rel: also run the forms in the reference order and compare the observations
+	Rel     bool     `json:"rel,omitempty"`
 	Flavors []Flavor `json:"flavors"`
 	Methods []Method `json:"methods"`
 	Steps   []Step   `json:"steps"`
@@ -149,12 +172,13 @@ type world struct {
 	c       *Case
 	defined []bool
 	meth    map[mkey]int // version (1 = first definition)
+	stop    map[mkey]bool
 	late    map[tm]int
 	precs   map[int][]int
 }
 
 func newWorld(c *Case) *world {
-	return &world{c: c, defined: make([]bool, len(c.Flavors)), meth: map[mkey]int{}, late: map[tm]int{}, precs: map[int][]int{}}
+	return &world{c: c, defined: make([]bool, len(c.Flavors)), meth: map[mkey]int{}, stop: map[mkey]bool{}, late: map[tm]int{}, precs: map[int][]int{}}
 }
 
 // prec is the precedence list of flavor t (indices), without vanilla.
@@ -172,6 +196,11 @@ func (w *world) prec(t int) []int {
 		seen[f] = true
 		out = append(out, f)
 		for _, c := range w.c.Flavors[f].Comps {
+			visit(c)
+		}
+		// an included flavor that is not a component otherwise follows the
+		// components of the flavor that includes it
+		for _, c := range w.c.Flavors[f].Incl {
 			visit(c)
 		}
 	}
@@ -193,17 +222,29 @@ func has(list []string, s string) bool {
 // (a getter :v or a setter :set-v); returns the variable name.
 func (w *world) accessor(f int, msg string) (kind, v string) {
 	fl := &w.c.Flavors[f]
+	// the bare option: "a getter/setter method for each variable" of the
+	// flavor, inherited ones included; the list form: the listed variables
 	if strings.HasPrefix(msg, "set-") {
 		v = msg[4:]
-		if fl.ownVar(v) && (fl.SetAll || has(fl.Set, v)) {
+		if (fl.SetAll && w.hasVar(f, v)) || (fl.ownVar(v) && has(fl.Set, v)) {
 			return "set", v
 		}
 		return "", ""
 	}
-	if fl.ownVar(msg) && (fl.GetAll || has(fl.Get, msg)) {
+	if (fl.GetAll && w.hasVar(f, msg)) || (fl.ownVar(msg) && has(fl.Get, msg)) {
 		return "get", msg
 	}
 	return "", ""
+}
+
+// hasVar: some flavor in the precedence of f declares variable v.
+func (w *world) hasVar(f int, v string) bool {
+	for _, g := range w.prec(f) {
+		if w.c.Flavors[g].ownVar(v) {
+			return true
+		}
+	}
+	return false
 }
 
 func (fl *Flavor) ownVar(name string) bool {
@@ -254,6 +295,7 @@ func (w *world) defFlavor(f int) {
 func (w *world) defMethod(m Method) {
 	first := !w.hasCombo(m.F, m.Msg)
 	w.meth[mkey{m.F, m.Kind, m.Msg}]++
+	w.stop[mkey{m.F, m.Kind, m.Msg}] = m.Stop
 	for t := range w.c.Flavors {
 		if !w.defined[t] || t == m.F {
 			continue
@@ -293,14 +335,17 @@ type inst struct {
 // naming a variable replace its default, the others form the plist for :init.
 func (w *world) newInst(t int, kv []kwarg) (in *inst, plist val) {
 	in = &inst{t: t, vars: map[string]val{}}
+	// the default of a variable is given by the first flavor in precedence
+	// that gives one; a flavor naming the variable without a default gives none
+	given := map[string]bool{}
 	for _, f := range w.prec(t) {
 		for _, v := range w.c.Flavors[f].Vars {
 			if _, has := in.vars[v.name()]; !has {
-				if v.Bare {
-					in.vars[v.name()] = nil
-				} else {
-					in.vars[v.name()] = v.D
-				}
+				in.vars[v.name()] = nil
+			}
+			if !v.noDefault() && !given[v.name()] {
+				given[v.name()] = true
+				in.vars[v.name()] = v.D
 			}
 		}
 	}
@@ -316,6 +361,25 @@ func (w *world) newInst(t int, kv []kwarg) (in *inst, plist val) {
 		plist = pl
 	}
 	return
+}
+
+// shadowed: a flavor earlier in precedence than the one giving v's default
+// names v without a default.
+func (w *world) shadowed(t int, v string) bool {
+	bare := false
+	for _, f := range w.prec(t) {
+		for _, d := range w.c.Flavors[f].Vars {
+			if d.name() != v {
+				continue
+			}
+			if d.noDefault() {
+				bare = true
+			} else {
+				return bare
+			}
+		}
+	}
+	return false
 }
 
 type kwarg struct {
@@ -346,6 +410,7 @@ type expect struct {
 	nFlavors  int // flavors contributing daemons
 	nDaemons  int
 	nWhoppers int
+	stopped   bool
 }
 
 func (e *expect) trace() []string {
@@ -377,10 +442,15 @@ func (w *world) send(in *inst, msg string, arg val) *expect {
 	contrib := map[int]bool{}
 	type wh struct{ f, ver int }
 	var whops []wh
+	stopped := false
 	for _, f := range p {
 		if ver := w.meth[mkey{f, "whopper", msg}]; 0 < ver {
 			whops = append(whops, wh{f, ver})
 			contrib[f] = true
+			if w.stop[mkey{f, "whopper", msg}] {
+				stopped = true
+				break
+			}
 		}
 	}
 	for _, wp := range whops {
@@ -388,6 +458,24 @@ func (w *world) send(in *inst, msg string, arg val) *expect {
 		if 0 < ar {
 			arg = []val{wp.f, arg}
 		}
+	}
+	if stopped {
+		// the innermost whopper entered returns without continuing: no
+		// :before, primary or :after daemon runs
+		last := whops[len(whops)-1]
+		e.hasPrim = true
+		e.result = []val{sym("s"), last.f}
+		e.whopOut = append(e.whopOut, fmt.Sprintf("x%d.%d", last.f, last.ver))
+		for i := len(whops) - 2; 0 <= i; i-- {
+			e.whopOut = append(e.whopOut, fmt.Sprintf("x%d.%d", whops[i].f, whops[i].ver))
+			e.result = []val{sym("w"), whops[i].f, e.result}
+		}
+		e.nFlavors = len(contrib)
+		e.nWhoppers = len(whops)
+		e.nDaemons = len(e.whopIn)
+		e.handled = true
+		e.stopped = true
+		return e
 	}
 	for _, f := range p {
 		if ver := w.meth[mkey{f, "before", msg}]; 0 < ver {
@@ -459,7 +547,7 @@ func (w *world) mustAcceptVar(t int, v string) bool {
 		fl := &w.c.Flavors[f]
 		if fl.IniAll || 0 < len(fl.Ini) {
 			restricted = true
-			if fl.ownVar(v) && (fl.IniAll || has(fl.Ini, v)) {
+			if (fl.IniAll && w.hasVar(f, v)) || (fl.ownVar(v) && has(fl.Ini, v)) {
 				return true
 			}
 		}
